@@ -1,14 +1,21 @@
 """C06 — conversions stay inside caller buffers and honour the read/written contract."""
-import r_handle, r_inputempty, r_unchecked
+import r_handle, r_inputempty, r_unchecked, r_ofpanic
 
 MANIFEST = {
     'category': 'other',
-    'text': 'Static structural decision of the memory-safety / contract part of C06, for every input and history at once: '
-            'every store into a converter destination goes through a linear handle whose construction is dominated by a '
-            'space test proving at least as many units as the handle can store (R-HANDLE); other clauses are added as rules land. '
-            'Implicit bounds-check panics and numerical exactness are not decided.',
-    'note': 'Trusted: rustc MIR construction and instance resolution, the mirx printer, the rule library, the contract of the ASCII kernels at two frozen sites.',
-    'technique': 'custom MIR dataflow/dominance rules over a rustc_private fact dump (typestate + who-may-call)',
+    'text': 'Memory-safety and contract clauses of C06 decided statically, for every input, length and history at once, in the default and '
+            'simd-accel builds: (D1) R-HANDLE — every store into a converter destination goes through a linear handle whose construction is '
+            'dominated by a space test proving at least as many units as the handle can store; (D2) R-UNCHECKED — each of the ~110 other '
+            'get_unchecked[_mut] accesses is proved in bounds by an available-guard dataflow (facts base + G <= len generated on the proving '
+            'edge of a length comparison, shifted by base += c, killed by other assignments, intersected at joins; `x != len` upgrades; '
+            'min(src,dst) lengths; byte-indexed tables by value range against the array length), with 11 frozen sites resting on &str '
+            'validity; (D3) R-INPUTEMPTY — InputEmpty is constructed only where the source is known exhausted; (D4) R-OFPANIC — the BOM '
+            'replay helpers\' panic on OutputFull is unreachable with a documented-minimum sink iff maxwrite(first byte) + demanded space <= '
+            'minimum for every variant decoder; this holds for the one-byte replays and the UTF-16 two-byte replay and FAILS for the UTF-8 '
+            'two-byte replay (single-byte encodings, x-user-defined): a genuine defect, recorded as a known finding. Not decided: implicit '
+            'bounds-check / overflow panics of checked indexing and arithmetic on all inputs, numerical exactness.',
+    'note': 'Trusted: rustc MIR and instance resolution, mirx, the rule library, the contract of the ASCII kernels (Some((unit, n)) => n < min(src.len(), dst.len())), &str validity at 11 frozen sites.',
+    'technique': 'MIR typestate/dominance rules + available-expression dataflow for bounds facts + per-variant capacity/first-byte-write extraction',
 }
 
 CONFIGS = {'quick': ['default', 'simd'], 'thorough': ['default', 'simd', 'noalloc', 'fast', 'lessslow']}
@@ -16,14 +23,9 @@ CONFIGS = {'quick': ['default', 'simd'], 'thorough': ['default', 'simd', 'noallo
 
 def run(rep, facts, tier):
     for c, f in facts.items():
-        r_handle.run(rep, f, c)
+        r_ofpanic.run(rep, f, c, 'R-OFPANIC')      # runs R-HANDLE first (needs its guard capacities)
         n = r_inputempty.run(rep, f, c, 'R-INPUTEMPTY')
         rep.floor('R-INPUTEMPTY', 'InputEmpty constructions', n, 80, c)
         n, d = r_unchecked.run(rep, f, c, 'R-UNCHECKED')
         rep.floor('R-UNCHECKED', 'unchecked slice accesses outside write_code_unit', n, 100, c)
-    return ('other',
-            'Structural part of C06 decided from MIR: (D1) R-HANDLE — every store into a converter destination goes '
-            'through a linear handle whose construction is dominated by a space test proving at least as many units '
-            'as any consuming method of that handle can store. Not decided: implicit bounds-check panics, numerical '
-            'exactness.',
-            [])
+    return ('other', MANIFEST['text'], [])
